@@ -112,7 +112,8 @@ func (ym *YamlMap) setValue(item *YamlKeyValue) {
 		if ym.Items[i].Key.Value == item.Key.Value {
 			// Replace the element: the old one may be shared with the map this one was cloned from
 			// (MergeMaps), writing through it would change the group labels for every other rule.
-			ym.Items[i] = &YamlKeyValue{Key: ym.Items[i].Key, Value: item.Value}
+			// Take key and value from the overriding entry so that positions of both point at the same place.
+			ym.Items[i] = item
 			return
 		}
 	}
